@@ -234,5 +234,23 @@ package engine
 //@   requires me != nil
 //@   ensures result1 == nil ==> (result0 <==> ghost(found, me) != 0)
 //@ func (me *memEng) GetBytesNoLock(key []byte) ([]byte, error)
+//@   opt anymode
 //@   requires me != nil
 //@   ensures result1 == nil ==> ((result0 != nil) <==> ghost(found, me) != 0)
+
+// ---- the in-memory engine's write batch (radix flavour, the only one selected): the counter merge ----
+// A merge is applied eagerly; the running total of a key merged or put earlier in the same batch is kept in
+// wb.cachedForMerge.  What is remembered for the key is exactly what was handed to the index in this step: an 8-byte
+// little-endian counter equal to (total so far) + (operand), both read with the engine-independent counter decoding,
+// wrapping like the pebble / rocksdb uint64add operator (Uint64AddMerger above).
+//@ property C20
+//@ func (mi *radixMemIndex) Put(txn *memdb.Txn, key []byte, value []byte) error
+//@   trusted copies key and value into the radix transaction; the arguments are not written
+//@   opt anymode
+//@ extern (*github.com/youzan/ZanRedisDB/engine/radixdb.MemDB).Txn func(db *memdb.MemDB, write bool) *memdb.Txn
+//@ func (wb *memWriteBatch) Merge(key []byte, value []byte)
+//@   mode bv
+//@   requires wb != nil && wb.db != nil && wb.db.radixMemI != nil && wb.db.radixMemI.memkv != nil
+//@   callassert Put len(arg3) == 8 && le64(arg3, 0) == counterVal(oldV) + counterVal(value)
+//@   mapassert wb.cachedForMerge len(mapval) == 8 && le64(mapval, 0) == counterVal(oldV) + counterVal(value) && bytesEq(mapkey, key)
+//@   modifies *
